@@ -362,8 +362,12 @@ func main() {
 		"(input, fault position, fault mode) triples: inputs of the seven formats (x encodings, BOM, CRLF, ...) read through a reader that returns data up to the position and then a non-EOF error (persistent, or one error once and then another one persistently; error values: plain pointer/struct errors, io.ErrUnexpectedEOF, errors wrapping io.EOF, *os.PathError, text EOF); positions include every one of the first five lines (header rows, rows to skip); "+
 			"non-trivial = the fault position is strictly inside the input and the source did return the fault; distinct by (variant, input bytes, position, mode)")
 	e := &env{o: o, sum: sum, variants: iox.Variants(), schemas: map[string]*iox.CapSchema{}}
-	e.cw = vh.NewCaseWriter(o, "C16", "Base.ErrClass Model.Chunk Model.Fault", "fcase", "Fault.check_case")
-	e.cw.PerFile = 80
+	// the (many, tiny) classification cases and the (few, heavier) component cases go to separate
+	// shard families so that neither floods the other
+	e.cw = vh.NewCaseWriter(o, "C16r", "Base.ErrClass Model.Chunk Model.Fault", "fcase", "Fault.check_case")
+	e.cw.PerFile = 700
+	cwc := vh.NewCaseWriter(o, "C16", "Base.ErrClass Model.Chunk Model.Fault", "fcase", "Fault.check_case")
+	cwc.PerFile = 16
 
 	if o.Replay != "" {
 		var rp struct {
@@ -439,10 +443,11 @@ func main() {
 		}
 	}
 
-	components(r, o, sum, e.cw)
+	components(r, o, sum, cwc)
 
 	e.cw.Flush()
-	sum.CaseFiles = e.cw.Files
+	cwc.Flush()
+	sum.CaseFiles = append(e.cw.Files, cwc.Files...)
 	sum.Write(o)
 }
 
